@@ -26,7 +26,7 @@
    the running filter is a function of the on-disk state, which only changes through calls that
    initialise first, so it is modelled eagerly at Restart.
 
-   `act` / `res` are output-only variables (the call and what it returned); `tainted` is a ghost
+   `act` / `res` are output-only variables (the call and what it returned); `cause` is a ghost
    used only to name the cause of a false negative. *)
 EXTENDS Integers, Sequences, FiniteSets, TLC
 
@@ -42,8 +42,8 @@ CONSTANTS W,            \* blocks per aggregated filter window (real: core.NumBl
                         \* negative: only the full range
           \* ---- defect switches: FALSE = the code as it is, TRUE = the repaired design
           InvalidateCacheOnReorg,  \* H1: RevertHead drops the cached persisted windows
-          SnapshotValidated,       \* H2: a snapshot is only reused if the chain below its `next` is
-                                   \*     still the chain it was taken from
+          SnapshotConsumedOnLoad,  \* H2: the shutdown snapshot is deleted as soon as an initialisation
+                                   \*     has read it (only the start right after the graceful stop uses it)
           DropReopenedWindow       \* H19: onReorg deletes the persisted filter of the window it
                                    \*      re-opens (the code deletes the key of the window it leaves)
 
@@ -53,11 +53,13 @@ VARIABLES chain,      \* disk: sequence of modelled blocks; block number Base+i-
           running,    \* memory: [from, next, bits]
           cache,      \* memory: window index -> bits (LRU of persisted windows, 16 entries: never evicts here)
           gstops,     \* number of graceful stops so far
-          tainted,    \* ghost: a stale snapshot has been resumed at some point
+          cause,      \* ghost: the first event that poisoned the index: "none" | "snapshot" (a stale
+                      \*        snapshot was resumed) | "persisted" (a rebuild anchored on a persisted window
+                      \*        that a reorg had re-opened and left on disk)
           act, res
 
-vars == <<chain, persisted, snapshot, running, cache, gstops, tainted, act, res>>
-view == <<chain, persisted, snapshot, running, cache, gstops, tainted>>
+vars == <<chain, persisted, snapshot, running, cache, gstops, cause, act, res>>
+view == <<chain, persisted, snapshot, running, cache, gstops, cause>>
 
 --------------------------------------------------------------------------
 (* generic helpers *)
@@ -128,122 +130,159 @@ Rebuild(p) ==
            p2 == [w \in (DOMAIN p) \cup full |-> IF w \in full THEN {} ELSE p[w]] IN
        FillFrom([from |-> (Base \div W) * W, next |-> Base, bits |-> {}], p2, Base)
 
-SnapUsable(s) == SnapshotValidated => IsPrefix(s.pre, chain) /\ s.next = Base + Len(s.pre)
+(* the rebuild anchors on a persisted window that the chain no longer fills (left on disk by a
+   revert across its end): the running window then starts above the head *)
+AnchorIncomplete(p) ==
+  LET cand == {w \in DOMAIN p : w <= Height \div W} IN
+  cand # {} /\ (Max(cand) + 1) * W - 1 > Height
+
 SnapStale(s) == ~(IsPrefix(s.pre, chain) /\ s.next = Base + Len(s.pre))
 Strip(s) == [from |-> s.from, next |-> s.next, bits |-> s.bits]
 
 (* core.InitializeRunningEventFilter; result [r, p, how] *)
 InitFromDisk(p, s) ==
   IF Height = -1 THEN [r |-> [from |-> 0, next |-> 0, bits |-> {}], p |-> p, how |-> "empty"]
-  ELSE IF s.ok /\ SnapUsable(s) /\ s.next = Height + 1
+  ELSE IF s.ok /\ s.next = Height + 1
        THEN [r |-> Strip(s), p |-> p, how |-> "snapshot"]
-  ELSE IF s.ok /\ SnapUsable(s) /\ s.next <= Height /\ Height <= s.from + W - 1
+  ELSE IF s.ok /\ s.next <= Height /\ Height <= s.from + W - 1
        THEN LET x == FillFrom(Strip(s), p, s.next) IN [r |-> x.r, p |-> x.p, how |-> "fill"]
   ELSE LET x == Rebuild(p) IN [r |-> x.r, p |-> x.p, how |-> "rebuild"]
 
 NoSnap == [ok |-> FALSE, from |-> 0, next |-> 0, bits |-> {}, pre |-> <<>>]
+Lazy == [ok |-> FALSE, from |-> 0, next |-> 0, bits |-> {}]     \* a new process: not initialised yet
 
 (* the base image: Base empty blocks stored by a previous process, no snapshot; the process under
-   test starts on it (rebuild) *)
+   test is a new Blockchain on it *)
 BaseWindows == {w \in 0..(Base \div W) : (w + 1) * W <= Base}
 
 Init ==
   /\ chain = <<>>
   /\ persisted = [w \in BaseWindows |-> {}]
   /\ snapshot = NoSnap
-  /\ running = [from |-> (Base \div W) * W, next |-> Base, bits |-> {}]
+  /\ running = Lazy
   /\ cache = EmptyF
   /\ gstops = 0
-  /\ tainted = FALSE
+  /\ cause = "none"
   /\ act = [name |-> "Init"]
   /\ res = [kind |-> "ok"]
 
+(* RunningEventFilter.ensureInit: the first call that touches the filter initialises it from the
+   disk, and a same-window fill that reaches the end of the window WRITES that window to the disk
+   at that moment.  Cur is the (deterministic) outcome; an action that touches the filter adopts
+   Cur.r / Cur.p / CurCause. *)
+Cur ==
+  IF running.ok THEN [r |-> [from |-> running.from, next |-> running.next, bits |-> running.bits],
+                      p |-> persisted, how |-> "running", s |-> snapshot]
+  ELSE LET x == InitFromDisk(persisted, snapshot) IN
+       [r |-> x.r, p |-> x.p, how |-> x.how,
+        s |-> IF SnapshotConsumedOnLoad /\ snapshot.ok /\ Height # -1 THEN NoSnap ELSE snapshot]
+Hot(r) == [ok |-> TRUE, from |-> r.from, next |-> r.next, bits |-> r.bits]
+CurCause ==
+  IF cause # "none" \/ running.ok THEN cause
+  ELSE IF Cur.how \in {"snapshot", "fill"} /\ SnapStale(snapshot) THEN "snapshot"
+  ELSE IF Cur.how = "rebuild" /\ AnchorIncomplete(persisted) THEN "persisted"
+  ELSE "none"
+
 --------------------------------------------------------------------------
 (* Blockchain.Store: the bloom insert is the last step inside the store batch; when the block is
-   outside the running window the whole store fails and nothing changes *)
+   outside the running window the whole store fails (the initialisation stays) *)
 Store(blk) ==
   LET n == Height + 1
-      r == running IN
+      cur == Cur
+      r == cur.r IN
   /\ Len(chain) < MaxBlocks
   /\ act' = [name |-> "Store", blk |-> blk]
+  /\ cause' = CurCause
+  /\ snapshot' = cur.s
   /\ IF n < r.from \/ n > r.from + W - 1
      THEN /\ res' = [kind |-> "err"]
-          /\ UNCHANGED <<chain, persisted, snapshot, running, cache, gstops, tainted>>
-     ELSE LET x == InsertBits(r, persisted, n, Atoms(blk)) IN
+          /\ running' = Hot(r)
+          /\ persisted' = cur.p
+          /\ UNCHANGED <<chain, cache, gstops>>
+     ELSE LET x == InsertBits(r, cur.p, n, Atoms(blk)) IN
           /\ chain' = Append(chain, blk)
-          /\ running' = x.r
+          /\ running' = Hot(x.r)
           /\ persisted' = x.p
           /\ res' = [kind |-> "ok"]
-          /\ UNCHANGED <<snapshot, cache, gstops, tainted>>
+          /\ UNCHANGED <<cache, gstops>>
 
 (* Blockchain.RevertHead: RunningEventFilter.onReorg works from its own `next`, not from the head *)
 Revert ==
-  LET r == running
+  LET cur0 == Cur
+      r == cur0.r
+      p == cur0.p
       cur == r.next - 1 IN
   /\ Len(chain) > 0
   /\ act' = [name |-> "Revert"]
+  /\ cause' = CurCause
+  /\ snapshot' = cur0.s
   /\ IF r.from >= 1 /\ cur = r.from - 1
      THEN LET wp == cur \div W IN
-          IF wp \notin DOMAIN persisted
+          IF wp \notin DOMAIN p
           THEN /\ res' = [kind |-> "err"]
-               /\ UNCHANGED <<chain, persisted, snapshot, running, cache, gstops, tainted>>
-          ELSE /\ running' = [from |-> wp * W, next |-> cur, bits |-> ClearCol(persisted[wp], cur)]
-               /\ persisted' = IF DropReopenedWindow THEN Del(persisted, wp)
-                               ELSE Del(persisted, r.from \div W)
+               /\ running' = Hot(r)
+               /\ persisted' = p
+               /\ UNCHANGED <<chain, cache, gstops>>
+          ELSE /\ running' = Hot([from |-> wp * W, next |-> cur, bits |-> ClearCol(p[wp], cur)])
+               /\ persisted' = IF DropReopenedWindow THEN Del(p, wp) ELSE Del(p, r.from \div W)
                /\ cache' = IF InvalidateCacheOnReorg THEN EmptyF ELSE cache
                /\ chain' = SubSeq(chain, 1, Len(chain) - 1)
                /\ res' = [kind |-> "ok"]
-               /\ UNCHANGED <<snapshot, gstops, tainted>>
+               /\ UNCHANGED gstops
      ELSE IF cur < r.from \/ cur > r.from + W - 1
      THEN /\ res' = [kind |-> "err"]
-          /\ UNCHANGED <<chain, persisted, snapshot, running, cache, gstops, tainted>>
-     ELSE /\ running' = [r EXCEPT !.next = cur, !.bits = ClearCol(@, cur)]
+          /\ running' = Hot(r)
+          /\ persisted' = p
+          /\ UNCHANGED <<chain, cache, gstops>>
+     ELSE /\ running' = Hot([r EXCEPT !.next = cur, !.bits = ClearCol(@, cur)])
+          /\ persisted' = p
           /\ cache' = IF InvalidateCacheOnReorg THEN EmptyF ELSE cache
           /\ chain' = SubSeq(chain, 1, Len(chain) - 1)
           /\ res' = [kind |-> "ok"]
-          /\ UNCHANGED <<persisted, snapshot, gstops, tainted>>
+          /\ UNCHANGED gstops
 
-(* process restart: graceful = Blockchain.WriteRunningEventFilter() first; then a new Blockchain on
-   the same store (empty cache, running filter initialised from disk) *)
+(* process restart: graceful = Blockchain.WriteRunningEventFilter() first (which initialises, then
+   writes the snapshot); then a new Blockchain on the same store: empty cache, lazy filter *)
 Restart(g) ==
   /\ g => gstops < MaxGraceful
-  /\ LET s2 == IF g THEN [ok |-> TRUE, from |-> running.from, next |-> running.next,
-                          bits |-> running.bits, pre |-> chain]
-               ELSE snapshot
-         x == InitFromDisk(persisted, s2) IN
-     /\ snapshot' = s2
-     /\ running' = x.r
-     /\ persisted' = x.p
-     /\ tainted' = (tainted \/ (x.how \in {"snapshot", "fill"} /\ SnapStale(s2)))
-     /\ act' = [name |-> "Restart", graceful |-> g]
-     /\ res' = [kind |-> "ok", how |-> x.how]
+  /\ IF g
+     THEN /\ LET cur == Cur IN
+             /\ snapshot' = [ok |-> TRUE, from |-> cur.r.from, next |-> cur.r.next, bits |-> cur.r.bits,
+                             pre |-> chain]
+             /\ persisted' = cur.p
+          /\ cause' = CurCause
+     ELSE UNCHANGED <<snapshot, persisted, cause>>
+  /\ running' = Lazy
   /\ cache' = EmptyF
   /\ gstops' = IF g THEN gstops + 1 ELSE gstops
+  /\ act' = [name |-> "Restart", graceful |-> g]
+  /\ res' = [kind |-> "ok"]
   /\ UNCHANGED chain
 
 --------------------------------------------------------------------------
 (* The event query.  During one query neither the disk nor the running filter changes and a cache
    entry, once added, equals the persisted window it was read from, so the candidate source of a
-   window is fixed for the whole query; the query's only effect is the set of windows it caches. *)
+   window is fixed for the whole query; the query's effects are the lazy initialisation (if it
+   loads any window) and the set of windows it caches. *)
 Missing == {<<-1, <<"missing", 0, "">>>>}
 
-SrcOf(w, useCache) ==
-  IF w * W = running.from THEN running.bits
+(* q bundles what is fixed during a query: [f, to, chunk, limit, uc (consult the cache?), cur (= Cur)] *)
+SrcOf(cur, w, useCache) ==
+  IF w * W = cur.r.from THEN cur.r.bits
   ELSE IF useCache /\ w \in DOMAIN cache THEN cache[w]
-  ELSE IF w \in DOMAIN persisted THEN persisted[w]
+  ELSE IF w \in DOMAIN cur.p THEN cur.p[w]
   ELSE Missing
 
 NoTok == [b |-> -1, p |-> 0]
 
 (* AppendBlockEventsFromTransactionEvents on block b: i = events processed so far *)
-RECURSIVE ProcBlock(_, _, _, _, _, _, _)
-ProcBlock(f, b, evs, i, skipped, acc, chunk) ==
+RECURSIVE ProcBlock(_, _, _, _, _, _)
+ProcBlock(q, b, evs, i, skipped, acc) ==
   IF i = Len(evs) THEN [acc |-> acc, full |-> FALSE, processed |-> i]
-  ELSE IF i < skipped THEN ProcBlock(f, b, evs, i + 1, skipped, acc, chunk)
-  ELSE IF ~MatchEvent(f, evs[i + 1].e) THEN ProcBlock(f, b, evs, i + 1, skipped, acc, chunk)
-  ELSE IF Len(acc) < chunk
-       THEN ProcBlock(f, b, evs, i + 1, skipped,
-                      Append(acc, [b |-> b, t |-> evs[i + 1].t, i |-> evs[i + 1].i]), chunk)
+  ELSE IF i < skipped THEN ProcBlock(q, b, evs, i + 1, skipped, acc)
+  ELSE IF ~MatchEvent(q.f, evs[i + 1].e) THEN ProcBlock(q, b, evs, i + 1, skipped, acc)
+  ELSE IF Len(acc) < q.chunk
+       THEN ProcBlock(q, b, evs, i + 1, skipped, Append(acc, [b |-> b, t |-> evs[i + 1].t, i |-> evs[i + 1].i]))
   ELSE [acc |-> acc, full |-> TRUE, processed |-> i]
 
 (* a filter without any constraint: every block of a window is a candidate *)
@@ -254,43 +293,43 @@ Min(S) == CHOOSE x \in S : \A y \in S : x <= y
    jumping from candidate to candidate; loaded = windows whose filter was loaded.  (With an
    unconstrained filter and no scan limit the empty base blocks are skipped: visiting them has no
    effect.) *)
-RECURSIVE Walk(_, _, _, _, _, _, _, _, _, _)
-Walk(f, b, hi, skipped, acc, scanned, loaded, chunk, limit, uc) ==
+RECURSIVE Walk(_, _, _, _, _, _, _)
+Walk(q, b, hi, skipped, acc, scanned, loaded) ==
   IF b > hi THEN [err |-> FALSE, ev |-> acc, tok |-> NoTok, loaded |-> loaded]
   ELSE LET w == b \div W
-           src == SrcOf(w, uc)
+           src == SrcOf(q.cur, w, q.uc)
            wend == IF hi < w * W + W - 1 THEN hi ELSE w * W + W - 1 IN
        IF src = Missing THEN [err |-> TRUE, ev |-> <<>>, tok |-> NoTok, loaded |-> loaded]
-       ELSE LET lo == IF IsMatchAll(f) /\ limit = 0 /\ b < Base
+       ELSE LET all == IsMatchAll(q.f)
+                lo == IF all /\ q.limit = 0 /\ b < Base
                       THEN (IF Base <= wend THEN Base ELSE wend + 1) ELSE b
-                all == IsMatchAll(f)
                 cands == IF all THEN {}
-                         ELSE {c \in {x[1] : x \in src} : c >= b /\ c <= wend /\ MayMatch(f, Col(src, c))} IN
+                         ELSE {c \in {x[1] : x \in src} : c >= b /\ c <= wend /\ MayMatch(q.f, Col(src, c))} IN
             IF (all /\ lo > wend) \/ (~all /\ cands = {})
-            THEN Walk(f, wend + 1, hi, skipped, acc, scanned, loaded \cup {w}, chunk, limit, uc)
+            THEN Walk(q, wend + 1, hi, skipped, acc, scanned, loaded \cup {w})
             ELSE LET c == IF all THEN lo ELSE Min(cands) IN
-                 IF limit > 0 /\ scanned + 1 > limit
+                 IF q.limit > 0 /\ scanned + 1 > q.limit
                  THEN [err |-> FALSE, ev |-> acc, tok |-> [b |-> c, p |-> 0], loaded |-> loaded \cup {w}]
-                 ELSE LET pb == ProcBlock(f, c, Flat(BlockAt(c)), 0, skipped, acc, chunk) IN
+                 ELSE LET pb == ProcBlock(q, c, Flat(BlockAt(c)), 0, skipped, acc) IN
                       IF pb.full
                       THEN [err |-> FALSE, ev |-> pb.acc, tok |-> [b |-> c, p |-> pb.processed],
                             loaded |-> loaded \cup {w}]
-                      ELSE Walk(f, c + 1, hi, 0, pb.acc, scanned + 1, loaded \cup {w}, chunk, limit, uc)
+                      ELSE Walk(q, c + 1, hi, 0, pb.acc, scanned + 1, loaded \cup {w})
 
 (* EventFilter.Events with a nil pre-confirmed reader *)
-Page(f, start, to, skipped, chunk, limit, uc) ==
-  LET hi == IF to <= Height THEN to ELSE Height IN
+Page(q, start, skipped) ==
+  LET hi == IF q.to <= Height THEN q.to ELSE Height IN
   IF start > hi THEN [err |-> FALSE, ev |-> <<>>, tok |-> NoTok, loaded |-> {}]
-  ELSE Walk(f, start, hi, skipped, <<>>, 0, {}, chunk, limit, uc)
+  ELSE Walk(q, start, hi, skipped, <<>>, 0, {})
 
 (* follow the continuation tokens to exhaustion (fuel guards the recursion) *)
-RECURSIVE Pages(_, _, _, _, _, _, _, _)
-Pages(f, start, to, skipped, chunk, limit, uc, fuel) ==
-  LET pg == Page(f, start, to, skipped, chunk, limit, uc) IN
+RECURSIVE Pages(_, _, _, _)
+Pages(q, start, skipped, fuel) ==
+  LET pg == Page(q, start, skipped) IN
   IF pg.err THEN [err |-> TRUE, pages |-> <<>>, toks |-> <<>>, loaded |-> pg.loaded]
   ELSE IF pg.tok = NoTok \/ fuel = 0
        THEN [err |-> fuel = 0 /\ pg.tok # NoTok, pages |-> <<pg.ev>>, toks |-> <<pg.tok>>, loaded |-> pg.loaded]
-  ELSE LET rest == Pages(f, pg.tok.b, to, pg.tok.p, chunk, limit, uc, fuel - 1) IN
+  ELSE LET rest == Pages(q, pg.tok.b, pg.tok.p, fuel - 1) IN
        [err |-> rest.err, pages |-> <<pg.ev>> \o rest.pages, toks |-> <<pg.tok>> \o rest.toks,
         loaded |-> pg.loaded \cup rest.loaded]
 
@@ -306,19 +345,26 @@ NaiveScan(f, from, to) ==
 Fuel == 4 * (MaxBlocks + 2) + 8
 
 Query(f, from, to, chunk, limit) ==
-  LET q == Pages(f, from, to, 0, chunk, limit, TRUE, Fuel)
+  LET cur == Cur
+      cc == CurCause
+      qq == [f |-> f, to |-> to, chunk |-> chunk, limit |-> limit, uc |-> TRUE, cur |-> cur]
+      q == Pages(qq, from, 0, Fuel)
       naive == NaiveScan(f, from, to)
       exact == ~q.err /\ Concat(q.pages) = naive
-      qnc == Pages(f, from, to, 0, chunk, limit, FALSE, Fuel)
+      qnc == Pages([qq EXCEPT !.uc = FALSE], from, 0, Fuel)
+      touched == from <= to /\ from <= Height      \* the iterator loads a window: the filter is initialised
       why == IF exact THEN "none"
              ELSE IF ~qnc.err /\ Concat(qnc.pages) = naive THEN "cache"
-             ELSE IF tainted THEN "snapshot" ELSE "unexplained" IN
+             ELSE IF cc # "none" THEN cc ELSE "unexplained" IN
   /\ act' = [name |-> "Query", f |-> f, from |-> from, to |-> to, chunk |-> chunk, limit |-> limit]
   /\ res' = [kind |-> IF q.err THEN "err" ELSE "pages", pages |-> q.pages, toks |-> q.toks,
              naive |-> naive, exact |-> exact, why |-> why]
-  /\ cache' = [w \in (DOMAIN cache) \cup {v \in q.loaded : v * W # running.from} |->
-                 IF w \in DOMAIN cache THEN cache[w] ELSE persisted[w]]
-  /\ UNCHANGED <<chain, persisted, snapshot, running, gstops, tainted>>
+  /\ cache' = [w \in (DOMAIN cache) \cup {v \in q.loaded : v * W # cur.r.from} |->
+                 IF w \in DOMAIN cache THEN cache[w] ELSE cur.p[w]]
+  /\ IF touched
+     THEN running' = Hot(cur.r) /\ persisted' = cur.p /\ cause' = cc /\ snapshot' = cur.s
+     ELSE UNCHANGED <<running, persisted, cause, snapshot>>
+  /\ UNCHANGED <<chain, gstops>>
 
 (* RangeSlack < 0: only the full range 0..Height *)
 QueryFroms == IF RangeSlack < 0 THEN {0}
@@ -345,25 +391,28 @@ QueryExact == [][act'.name = "Query" => res'.exact]_vars
 (* C09, index form: every block's atoms are set in the column the query path would consult for it
    (so every block with a matching event is a candidate for every filter). *)
 NoFalseNegative ==
+  LET cur == Cur IN
   \A b \in 0..Height :
-     LET src == SrcOf(b \div W, TRUE) IN src # Missing /\ Atoms(BlockAt(b)) \subseteq Col(src, b)
+     LET src == SrcOf(cur, b \div W, TRUE) IN src # Missing /\ Atoms(BlockAt(b)) \subseteq Col(src, b)
 
 (* a false negative that disappears when the cache is bypassed is caused by the cache alone *)
 OnlyCacheToBlame == [][act'.name = "Query" => res'.why \in {"none", "cache"}]_vars
 OnlySnapshotToBlame == [][act'.name = "Query" => res'.why \in {"none", "snapshot"}]_vars
+OnlyPersistedToBlame == [][act'.name = "Query" => res'.why \in {"none", "persisted"}]_vars
+NothingUnexplained == [][act'.name = "Query" => res'.why # "unexplained"]_vars
 
 (* the index never makes the node refuse a block or a revert *)
 IndexNeverBlocksChain == [][act'.name \in {"Store", "Revert"} => res'.kind = "ok"]_vars
 
 (* the running window always contains the next block, and `next` tracks the head *)
-RunningInSync == running.next = Height + 1 /\ running.from <= running.next /\ running.next <= running.from + W - 1
+RunningInSync == LET r == Cur.r IN r.next = Height + 1 /\ r.from <= r.next /\ r.next <= r.from + W - 1
 
 (* a persisted window is complete: no persisted filter for a window the chain has not filled *)
-PersistedComplete == \A w \in DOMAIN persisted : (w + 1) * W - 1 <= Height
+PersistedComplete == LET cur == Cur IN \A w \in DOMAIN cur.p : (w + 1) * W - 1 <= Height
 
 TypeOK ==
   /\ Len(chain) <= MaxBlocks
-  /\ running.from % W = 0
+  /\ Cur.r.from % W = 0
   /\ gstops \in 0..MaxGraceful
-  /\ tainted \in BOOLEAN
+  /\ cause \in {"none", "snapshot", "persisted"}
 =============================================================================
